@@ -42,8 +42,16 @@ var c04Kinds = []string{
 	"not-member", "set-unknown", "no-eon", "dkg-pending", "dkg-failed", "restarted-pending", "restarted-success",
 }
 
+// c04ZeroLead: identity 0 of the case starts with a zero byte (identity prefixes are user chosen; whatever
+// takes a detour through a number loses leading zeros)
+var c04ZeroLead bool
+
 func c04Identity(fl flavour, i int) []byte {
-	return bytes.Repeat([]byte{byte(0x20 + i)}, fl.identityLen())
+	id := bytes.Repeat([]byte{byte(0x20 + i)}, fl.identityLen())
+	if i == 0 && c04ZeroLead {
+		id[0], id[1] = 0, 0
+	}
+	return id
 }
 
 // setupC04 writes the receiver state into a fresh node database.
@@ -51,6 +59,7 @@ func setupC04(rt *rapid.T, node *simNode) *c04State {
 	ctx := context.Background()
 	st := &c04State{Stored: map[string][]byte{}}
 	st.Kind = rapid.SampledFrom(c04Kinds).Draw(rt, "stateKind")
+	c04ZeroLead = rapid.IntRange(0, 2).Draw(rt, "identityWithLeadingZeros") == 0
 	st.MaxKeys = node.Cfg.MaxNumKeysPerMessage
 	st.N = rapid.IntRange(1, 4).Draw(rt, "n")
 	st.T = rapid.IntRange(1, st.N).Draw(rt, "t")
@@ -448,7 +457,7 @@ func genC04Message(rt *rapid.T, st *c04State) (topic string, data []byte, desc s
 
 func TestC04_ValidationExactness(t *testing.T) {
 	rec := recorder("C04")
-	rec.AddRule("core keyper node (real handlers behind the real combined topic validator, real schema on pgfake) in a generated receiver state {member with successful DKG, not a member, keyper set unknown, no eon, DKG pending, failed, failed-then-restarted (pending|succeeded), key already stored (same|different bytes)} x MaxNumKeysPerMessage {1,2,4} x (n,t) n<=4; a valid key-shares or keys message is built from deterministic eon keys and a generated set of 0-2 mutations is applied (instance id, eon incl. 2^32+idx and >2^63, sender index incl. =n and huge, count 0 / max+1, identity bytes, order, duplicate identity, share/key of another keyper / identity / foreign eon keys / truncated / point at infinity / random, wrong type on the topic, envelope version, unknown Any type, trailing bytes). Oracle: the statement's clauses evaluated on the bytes as they travel (independent protobuf decode + shcrypto primitives + the state the harness wrote); verdict must be accept iff no clause is violated; validation must not change the database; an accepted message, once handled, is stored exactly as sent. non-trivial = verdict decided by a clause other than the instance id; distinct by (state, message descriptor, bytes)")
+	rec.AddRule("core keyper node (real handlers behind the real combined topic validator, real schema on pgfake) in a generated receiver state {member with successful DKG, not a member, keyper set unknown, no eon, DKG pending, failed, failed-then-restarted (pending|succeeded), key already stored (same|different bytes)} x MaxNumKeysPerMessage {1,2,4} x (n,t) n<=4; a valid key-shares or keys message is built from deterministic eon keys (in a third of the cases the first identity starts with two zero bytes) and a generated set of 0-2 mutations is applied (instance id, eon incl. 2^32+idx and >2^63, sender index incl. =n and huge, count 0 / max+1, identity bytes, order, duplicate identity, share/key of another keyper / identity / foreign eon keys / truncated / point at infinity / random, wrong type on the topic, envelope version, unknown Any type, trailing bytes). Oracle: the statement's clauses evaluated on the bytes as they travel (independent protobuf decode + shcrypto primitives + the state the harness wrote); verdict must be accept iff no clause is violated; validation must not change the database; an accepted message, once handled, is stored exactly as sent. non-trivial = verdict decided by a clause other than the instance id; distinct by (state, message descriptor, bytes)")
 	rec.Assume("pgfake; shcrypto decode/verify primitives; p2pmsg.EnvelopeVersion constant")
 	runRapid(t, N(600, 10000), func(rt *rapid.T) {
 		maxKeys := rapid.SampledFrom([]uint64{1, 2, 2, 4, 4}).Draw(rt, "maxKeys")
@@ -552,6 +561,7 @@ func TestC04_History(t *testing.T) {
 	ctx := context.Background()
 	runRapid(t, N(150, 3000), func(rt *rapid.T) {
 		maxKeys := uint64(4)
+		c04ZeroLead = rapid.IntRange(0, 2).Draw(rt, "identityWithLeadingZeros") == 0
 		node := newSimNode(flCore, 0, maxKeys)
 		defer node.Close()
 		n := rapid.IntRange(2, 4).Draw(rt, "n")
